@@ -23,8 +23,10 @@ DIRS = {"d1": "$" + "1A" * 20, "d2": "$" + "2B" * 20, "d3": "$" + "3C" * 20, "d4
 
 
 class Run(object):
-    def __init__(self, mode, kind, prelude=False, he=False):
+    def __init__(self, mode, kind, prelude=False, he=False, progress=False):
         self.mode, self.kind, self.prelude, self.he = mode, kind, prelude, he
+        self.progress_calls = []
+        pcb = (lambda *a: self.progress_calls.append(a)) if progress else None
         assert not he or kind == "fs"
         self.proto = TorControlProtocol()
         self.tr = proto_helpers.StringTransport()
@@ -71,7 +73,7 @@ class Run(object):
         try:
             if kind == "eph":
                 d = EphemeralOnionService.create(self.reactor, self.config, ["80 127.0.0.1:8080"], version=3,
-                                                 await_all_uploads=await_all)
+                                                 await_all_uploads=await_all, progress=pcb)
             else:
                 self.tmp = tempfile.mkdtemp(prefix="verif-hs-")
                 if he:
@@ -79,7 +81,7 @@ class Run(object):
                     with open(os.path.join(self.tmp, "hostname"), "w") as f:
                         f.write(IDS["me"] + ".onion\n")
                 d = FilesystemOnionService.create(self.reactor, self.config, self.tmp, ["80 127.0.0.1:8080"], version=3,
-                                                  await_all_uploads=await_all)
+                                                  await_all_uploads=await_all, progress=pcb)
             d.addBoth(self.fired.append)
             self.sim.pump()
         except Exception:
@@ -134,8 +136,8 @@ class Run(object):
             shutil.rmtree(self.tmp, True)
 
 
-def replay(script, mode, kind, prelude=False, he=False):
-    run = Run(mode, kind, prelude, he)
+def replay(script, mode, kind, prelude=False, he=False, progress=False):
+    run = Run(mode, kind, prelude, he, progress)
     steps = []
     for e in script:
         s = dict(e)
@@ -144,7 +146,7 @@ def replay(script, mode, kind, prelude=False, he=False):
         if run.exc:
             break
     run.close()
-    return dict(steps=steps, mode=mode, kind=kind, prelude=prelude, he=he, errors=run.errors[:2])
+    return dict(steps=steps, mode=mode, kind=kind, prelude=prelude, he=he, progress=progress, errors=run.errors[:2])
 
 
 class _Sink(object):
